@@ -54,6 +54,7 @@ namespace
         if (kind == "rterr") return "1 + \"a\"; gX = 5;";
         if (kind == "rterr_spawned") return "[] spawn {sleep 0.02; gX = 9;}; 1 + \"a\"; gX = 5;";
         if (kind == "endless") return "for \"_i\" from 0 to 1 step 0 do {gY = 1}; gX = 5;";
+        if (kind == "napper") return "[] spawn {sleep 0.05; gX = 3;}; 7";
         if (kind == "sleeper") return "[] spawn {sleep 10; gX = 6;}; 7";
         if (kind == "empty") return "";
         if (kind == "cfgok") return "class A { x = 1; };";
@@ -91,6 +92,7 @@ static void cmd_api(const J& c)
             auto what = o.str("what");
             g_cb.expect_user = nullptr;
             if (what == "call") { ret = sqfvm_call(nullptr, g_cb.expect_call, 's', "gX = 1;", 7); }
+            else if (what == "callempty") { ret = sqfvm_call(nullptr, g_cb.expect_call, 's', "", 0); }
             else if (what == "config") { ret = sqfvm_load_config(nullptr, "class A {};", 11); }
             else { ret = sqfvm_status(nullptr); }
         }
